@@ -89,3 +89,26 @@ package aggregate
 //@   loop 0 invariant[C04] parameter-of-step-or-NaN: forall j in 0..rangeindex+1 :: a.params[j] == ite(j < len(args), args[j].Samples[0], nan())
 //@   loop 1 invariant aggInv(a) && (forall j in 0..len(a.workers) :: a.workers[j].started) && len(in) <= a.stepsBatch && !isnil(in) && len(result) == 0 && fresh(result)
 //@   loop 2 invariant aggInv(a) && (forall j in 0..len(a.workers) :: a.workers[j].started) && len(in) <= a.stepsBatch && !isnil(in) && len(result) == rangeindex + 1 && fresh(result) && !isnil(result)
+
+// ---- khashaggregate.go: topk / bottomk (C04, C07, C13, C18) --------------------------------------
+// aggregate evaluates ONE step: it appends exactly one vector, stamped with the step's time, to the
+// batch, for every k (k below one selects nothing), and leaves every heap empty again, so that the
+// next step does not depend on this one.
+//@ extern field:execution/aggregate.samplesHeap.compare(f, s) r
+//@   pure
+//@ pred kInv(a) = a != nil && a.vectorPool != nil && (forall j in 0..len(a.inputToHeap) :: a.inputToHeap[j] != nil && !isnil(a.inputToHeap[j].compare)) &&
+//@     (forall j in 0..len(a.heaps) :: a.heaps[j] != nil)
+//@ pred heapsEmpty(a) = (forall j in 0..len(a.heaps) :: len(a.heaps[j].entries) == 0) && (forall j in 0..len(a.inputToHeap) :: len(a.inputToHeap[j].entries) == 0)
+//@ func (*kAggregate).aggregate
+//@   requires kInv(a) && result != nil && len(SampleIDs) == len(samples) && (forall i in 0..len(SampleIDs) :: SampleIDs[i] < len(a.inputToHeap))
+//@   requires[C07] heaps-empty-between-steps: heapsEmpty(a)
+//@   ensures[C04,C18] one-output-vector-per-step: len(*result) == old(len(*result)) + 1
+//@   ensures[C04,C18] stamped-with-the-step: (*result)[len(*result)-1].T == t
+//@   ensures[C04,C18] ids-and-values-pair-up: len((*result)[len(*result)-1].SampleIDs) == len((*result)[len(*result)-1].Samples)
+//@   ensures[C04] nothing-selected-below-one: k < 1 ==> len((*result)[len(*result)-1].SampleIDs) == 0
+//@   ensures[C07] heaps-empty-again: forall j in 0..len(a.heaps) :: len(a.heaps[j].entries) == 0
+//@   loop 0 invariant kInv(a) && result != nil && len(*result) == old(len(*result)) && (k < 1 ==> heapsEmpty(a))
+//@   loop 1 invariant kInv(a) && result != nil && len(*result) == old(len(*result)) && s.T == t && len(s.SampleIDs) == len(s.Samples) &&
+//@       (forall j in 0..rangeindex+1 :: len(a.heaps[j].entries) == 0) && (k < 1 ==> heapsEmpty(a) && len(s.SampleIDs) == 0)
+//@   loop 2 invariant kInv(a) && result != nil && len(*result) == old(len(*result)) && s.T == t && len(s.SampleIDs) == len(s.Samples) &&
+//@       (k < 1 ==> len(s.SampleIDs) == 0)
